@@ -1,10 +1,10 @@
-\* C32 leg A thorough: 1 s = 10 model-ms; MaxTime with every ms part in [0, 2 s]; retention 0, 1 s, 1.3 s, 2 s; delays 1 s, 1.7 s, 2 s;
-\* thresholds 1 s, 1.5 s; clock 0..50 model-ms
+\* C32 leg A thorough: 1 s = 10 model-ms; MaxTime with every ms part in [0, 2 s]; retention 0, 1 s, 1.3 s, 2 s; delays 1 s, 1.7 s;
+\* thresholds 1 s, 1.5 s; clock 0..45 model-ms
 SPECIFICATION Spec
 CONSTANTS Sec = 10
-          MaxNow = 50
+          MaxNow = 45
           Rets = {0, 10, 13, 20}
-          Delays = {10, 17, 20}
+          Delays = {10, 17}
           Thresholds = {10, 15}
           Truncating = FALSE
 PROPERTIES C32_RetentionOnlyWhenOlder C32_CleanerOnlyAfterDelay C32_PartialOnlyWhenStaleAndUnmarked
